@@ -1,7 +1,7 @@
 """C18 - C API contract: truthful return codes, complete logging, reusable instances.
 
 Every history of API calls up to a depth over an alphabet of call kinds (succeeding, failing in each phase, erroring in the
-middle / as last action, spawning late loggers, non-terminating under a runtime limit, malformed input, every type
+middle / as last action, spawning late loggers, non-terminating or sleeping past a runtime limit, malformed input, every type
 character, invalid handles) on one instance, plus interleavings on two instances, is executed against the real exported
 functions in a forked ASan child; each call is judged on its own (code, status, callback user/call data, persisted
 globals/config) whatever preceded it.
@@ -12,7 +12,7 @@ from ..engine import Space
 PROPERTY = "C18"
 LEVEL = "model_checking"
 VARIANTS = ["asan"]
-RULE = ("all histories of <=2 (quick) / <=3 (thorough) calls over 19 call kinds after create(full, 50 ms limit) on one instance, with a status "
+RULE = ("all histories of <=2 (quick) / <=3 (thorough) calls over 21 call kinds after create(full, 50 ms limit) on one instance, with a status "
         "probe after every call; two-instance interleavings of 2 calls each; creation variants (full/basic/empty); invalid handles (NULL, foreign "
         "memory, destroyed); states = (globals set, config loaded, instance age) contexts reached, transitions = API calls; non-trivial = history "
         "contains a failing or limit-hitting call before another call")
@@ -35,6 +35,7 @@ CALLS = {
     "pp-error": ("s", '#include "nope.hpp"', -2, []),
     "late-logger": ("s", '[] spawn { sleep 0.002; diag_log "late" }; diag_log "early"', 0, ["early", "late"]),
     "nonterminating": ("s", "[] spawn { while {true} do { q = 1 } }", -6, []),
+    "sleeper-past-limit": ("s", '[] spawn { sleep 30; diag_log "never" }; diag_log "s1"', -6, ["s1"]),
     "empty": ("s", "", 0, []),
     "high-bytes": ("s", 'diag_log "\xff\xfe"', 0, ["\xff\xfe"]),
     "read-config": ("s", 'diag_log str [getNumber (configFile >> "ApiCfg" >> "v")]', 0, None),
@@ -103,7 +104,7 @@ def judge_call(kind, step_res, status_res, ud, cd, gv_set, cfg_loaded, tag, case
         want = ["[3]"] if cfg_loaded else ["[0]"]
     if want is not None and got_logs != want:
         return [("C18|%s|logging-incomplete-or-foreign|%s" % (kind, context), "%s: call %s delivered diag_log payloads %r, expected %r" % (tag, kind, got_logs, want), None, case)]
-    if code == -6 and ty == "s" and kind != "nonterminating" and not any(c["sev"] <= 1 for c in cbs):
+    if code == -6 and ty == "s" and kind not in ("nonterminating", "sleeper-past-limit") and not any(c["sev"] <= 1 for c in cbs):
         return [("C18|%s|error-not-logged|%s" % (kind, context), "%s: failing call %s delivered no error-level diagnostic" % (tag, kind), None, case)]
     if code == 0 and ty == "s" and any(c["sev"] == 0 for c in cbs):
         return [("C18|%s|fatal-diagnostic-on-success|%s" % (kind, context), "%s: successful call %s delivered a fatal diagnostic: %r" % (tag, kind, [c["msg"][:80] for c in cbs if c["sev"] == 0][:1]), None, case)]
@@ -177,7 +178,7 @@ def check(ws, case):
             pos = [q[1] for q in plan].index(idx)
             if pos > 0:
                 pk = arg[pos - 1]
-                prev = "after-" + ("ok" if CALLS[pk][2] == 0 else ("limit" if pk == "nonterminating" else "failing")) + "-call"
+                prev = "after-" + ("ok" if CALLS[pk][2] == 0 else ("limit" if pk in ("nonterminating", "sleeper-past-limit") else "failing")) + "-call"
         elif mode == "aged":
             prev = "instance-age>limit" if arg[0] > 50 else "instance-age<=limit"
         elif mode == "two":
